@@ -1276,21 +1276,26 @@ func checkC08(w *World, r *Report) {
 	}
 	// ---- R08.4
 	{
-		f := ro.resolve
-		finfo := f.Pkg.TypesInfo
+		f := ro.resolveTop
 		ok := false
-		ast.Inspect(f.Decl.Body, func(x ast.Node) bool {
-			if cl, isCl := x.(*ast.CompositeLit); isCl {
-				if tv, ok2 := finfo.Types[cl]; ok2 && isNamedType(tv.Type, modPath, "ResolutionError") {
-					if c, has := compositeFields(cl)["Cause"]; has {
-						if o := objOf(finfo, c); o != nil && o.Name() == "ErrServiceNotFound" {
-							ok = true
+		for _, g := range w.Within(f, 2) {
+			if ro.isCreate(g.Obj) {
+				continue
+			}
+			finfo := g.Pkg.TypesInfo
+			ast.Inspect(g.Decl.Body, func(x ast.Node) bool {
+				if cl, isCl := x.(*ast.CompositeLit); isCl {
+					if tv, ok2 := finfo.Types[cl]; ok2 && isNamedType(tv.Type, modPath, "ResolutionError") {
+						if c, has := compositeFields(cl)["Cause"]; has {
+							if o := objOf(finfo, c); o != nil && o.Name() == "ErrServiceNotFound" {
+								ok = true
+							}
 						}
 					}
 				}
-			}
-			return true
-		})
+				return true
+			})
+		}
 		r.Check(ok, "R08.4", f.Name()+"#not-found", f.Decl.Pos(), false, "an unregistered service is reported as ResolutionError{Cause: ErrServiceNotFound}", "resolution does not report an unregistered service as ResolutionError{Cause: ErrServiceNotFound}")
 	}
 }
